@@ -85,12 +85,14 @@ class Sched:
 class Ctx:
     S = None
     events = []
+    stop_index = None      # creation index of the runner's stop flag (see `event_roles`)
 
 
 class CoopEvent:
     def __init__(self):
         self.flag = False
         self.ops = []
+        self.is_stop = Ctx.stop_index is not None and len(Ctx.events) == Ctx.stop_index
         Ctx.events.append(self)
 
     def is_set(self):
@@ -100,7 +102,7 @@ class CoopEvent:
 
     def set(self):
         if Ctx.S is not None:
-            Ctx.S.yield_point('set')
+            Ctx.S.yield_point('set-stop' if self.is_stop else 'set')
         self.ops.append('set')
         self.flag = True
 
@@ -121,6 +123,7 @@ def event_roles(runner_class, make_interpreter):
     found by calling the public `pause()` and `stop()` on a runner that is never started (no private
     name is read).  Returns (index of the unpaused flag, index of the stop flag) in creation order."""
     saved, Ctx.S, Ctx.events = Ctx.S, None, []
+    Ctx.stop_index = None
     try:
         class Probe(runner_class):
             def wait(self):
@@ -219,6 +222,7 @@ def run_schedule(payload, rnd=None):
                 pass
         i_unpaused, i_stop = event_roles(rr.AsyncRunner, lambda: Interpreter(import_from_yaml(CHART)))
         Ctx.events = []
+        Ctx.stop_index = i_stop
         r = R(it, interval=0.1, execute_all=payload['execute_all'])
         r_events = list(Ctx.events)
         start_err = []
@@ -379,6 +383,7 @@ class C20(Prop):
         # wait and has not reached the next one) may still call before_execute, and only if it has not yet
         if single:
             allowed = None            # None: not paused
+            stopping = False          # the client is inside stop(): what it sets now is not an unpause()
             last_runner = None
             cycle_started = False     # before_execute already called in the cycle under way
             for nm, lab in trace:
@@ -398,8 +403,16 @@ class C20(Prop):
                     under_way = last_runner in ('wait', 'final', 'is_set', 'before_execute', 'execute_once', 'after_execute')
                     allowed = 1 if (under_way and not cycle_started) else 0
                     res.features.add('pause-under-way' if under_way else 'pause-at-gate')
+                elif lab == 'set-stop':
+                    stopping = True
                 elif lab == 'set':
-                    allowed = None
+                    if stopping:
+                        # stop() releases a paused runner so that it can end: no further cycle may start
+                        stopping = False
+                        if allowed is not None:
+                            res.features.add('stop-while-paused')
+                    else:
+                        allowed = None
         # stop(): returns, nothing executes afterwards
         joins = [i for i, (nm, lab) in enumerate(trace) if nm.startswith('client') and lab == 'join']
         if joins and any(nm == 'runner' and lab == 'execute_once' for nm, lab in trace[joins[0] + 1:]):
